@@ -79,13 +79,17 @@ Definition kind_of_ft (f : ftype) : kind :=
   match f with FCsv => KCsv | FExcel => KExcel | FBad => KBad end.
 
 Record ref := mkRef { r_id : N; r_own : owner; r_name : N; r_val : N }.
-Record spec := mkSpec { s_id : N; s_val : N; s_sheet : option N }.
-Record io := mkIO { io_id : N; io_grp : N; io_path : N; io_kind : kind; io_specs : list spec }.
+(** A spec together with the shared io object it is registered in: IOManager.ios maps
+    (group, path) to a BaseSharedIO ([s_io] is its identity, [s_kind] its class / file_type) whose
+    [_specs] holds the spec.  A shared io exists between operations only while it holds a spec
+    (del_spec calls _del_io on the last one), so the two-level dict is kept flat. *)
+Record spec := mkSpec { s_id : N; s_io : N; s_grp : N; s_path : N; s_kind : kind;
+                        s_sheet : option N; s_val : N }.
 
 Record state := mkState {
   st_refs : list ref;                       (* defined references (model level and spaces) *)
   st_tab : list (key * list N);             (* ReferenceManager._valid_to_refs, per model: (m, value) -> ref ids *)
-  st_ios : list io;                         (* IOManager.ios : (group, path) -> shared io -> specs *)
+  st_specs : list spec;                     (* IOManager.ios : (group, path) -> shared io -> specs *)
   st_spaces : list key;                     (* (model, space) *)
   st_bases : list (key * list N);           (* (model, space) -> ordered direct bases *)
   st_cells : list (key * N);                (* ((model, space), name): defined non-scalar cells *)
@@ -94,12 +98,12 @@ Record state := mkState {
 
 Definition init : state := mkState [] [] [] [] [] [] [] 0.
 
-Definition with_refs_tab_ios_next (st : state) rs tb ios nx : state :=
-  mkState rs tb ios (st_spaces st) (st_bases st) (st_cells st) (st_closed st) nx.
-Definition with_ios (st : state) ios : state :=
-  with_refs_tab_ios_next st (st_refs st) (st_tab st) ios (st_next st).
+Definition with_rtsn (st : state) rs tb sp nx : state :=
+  mkState rs tb sp (st_spaces st) (st_bases st) (st_cells st) (st_closed st) nx.
+Definition with_specs (st : state) sp : state :=
+  with_rtsn st (st_refs st) (st_tab st) sp (st_next st).
 Definition with_graph (st : state) sp bs cl : state :=
-  mkState (st_refs st) (st_tab st) (st_ios st) sp bs cl (st_closed st) (st_next st).
+  mkState (st_refs st) (st_tab st) (st_specs st) sp bs cl (st_closed st) (st_next st).
 
 (** * the table: a Python dict as an association list *)
 Fixpoint tget (k : key) (t : list (key * list N)) : option (list N) :=
@@ -145,35 +149,17 @@ Definition drop_ref (rid : N) (rs : list ref) : list ref :=
   filter (fun r => negb (N.eqb (r_id r) rid)) rs.
 
 (** * the IO manager *)
-Definition find_io (m p : N) (ios : list io) : option io :=
-  find (fun i => N.eqb (io_grp i) m && N.eqb (io_path i) p) ios.
-Definition set_specs (i : io) (sp : list spec) : io :=
-  mkIO (io_id i) (io_grp i) (io_path i) (io_kind i) sp.
-Definition has_sid (sid : N) (i : io) : bool := existsb (fun s => N.eqb (s_id s) sid) (io_specs i).
+Definition same_file (m p : N) (s : spec) : bool := N.eqb (s_grp s) m && N.eqb (s_path s) p.
+(** IOManager._get_io: the shared io registered under (group, path), seen through one of its specs *)
+Definition find_io (m p : N) (sp : list spec) : option spec := find (same_file m p) sp.
 
 (** get_spec_from_value: first spec of the group whose value is [v] *)
-Fixpoint get_spec (m v : N) (ios : list io) : option spec :=
-  match ios with
-  | [] => None
-  | i :: r => if N.eqb (io_grp i) m
-              then match find (fun s => N.eqb (s_val s) v) (io_specs i) with
-                   | Some s => Some s
-                   | None => get_spec m v r
-                   end
-              else get_spec m v r
-  end.
+Definition get_spec (m v : N) (sp : list spec) : option spec :=
+  find (fun s => N.eqb (s_grp s) m && N.eqb (s_val s) v) sp.
 
 (** IOManager.del_spec (+ _del_io when the shared io becomes empty) *)
-Fixpoint del_spec (sid : N) (ios : list io) : list io :=
-  match ios with
-  | [] => []
-  | i :: r => if has_sid sid i
-              then match filter (fun s => negb (N.eqb (s_id s) sid)) (io_specs i) with
-                   | [] => r
-                   | sp => set_specs i sp :: r
-                   end
-              else i :: del_spec sid r
-  end.
+Definition del_spec (sid : N) (sp : list spec) : list spec :=
+  filter (fun s => negb (N.eqb (s_id s) sid)) sp.
 
 (** PandasData._can_add_other / ModuleData._can_add_other *)
 Definition can_add_other (k : kind) (c other : spec) : bool :=
@@ -184,10 +170,11 @@ Definition can_add_other (k : kind) (c other : spec) : bool :=
               end
   | _ => false
   end.
-Definition can_add_spec (i : io) (s : spec) : bool :=
-  forallb (fun c => can_add_other (io_kind i) c s) (io_specs i).
+(** BaseSharedIO._can_add_spec: all specs already in the shared io must agree *)
+Definition can_add_spec (s : spec) (sp : list spec) : bool :=
+  forallb (fun c => can_add_other (s_kind s) c s) (filter (same_file (s_grp s) (s_path s)) sp).
 
-(** [_on_load_value] of a new spec on shared io [i] *)
+(** [_on_load_value] of a new spec on a shared io of kind [k] *)
 Definition load_ok_pandas (k : kind) (vk : vkind) : bool :=
   match k, vk with
   | KCsv, VPandas => true
@@ -195,46 +182,23 @@ Definition load_ok_pandas (k : kind) (vk : vkind) : bool :=
   | _, _ => false
   end.
 
-Fixpoint add_spec_at (iid : N) (s : spec) (ios : list io) : list io :=
-  match ios with
-  | [] => []
-  | i :: r => if N.eqb (io_id i) iid then set_specs i (io_specs i ++ [s]) :: r
-              else i :: add_spec_at iid s r
-  end.
-(** the [except:] branch of new_spec: drop the shared io again if it has no spec *)
-Definition cleanup_io (iid : N) (ios : list io) : list io :=
-  filter (fun i => negb (N.eqb (io_id i) iid && match io_specs i with [] => true | _ => false end)) ios.
-
-(** IOManager.new_spec for a spec with value [v], sheet [sh]; [want] is the io kind requested by the caller,
-    [loads k] says whether _on_load_value succeeds on an io of kind [k].
-    Returns the new state and the id of the new spec. *)
+(** IOManager.new_spec for a spec with value [v], sheet [sh]; [want] is the io kind requested by the caller
+    (ignored when (group, path) is registered already: get_or_create_io), [loads k] says whether
+    _on_load_value succeeds on an io of kind [k].  When it raises, the [except:] branch removes the
+    shared io again if it holds no spec (i.e. if it was created by this call): nothing is left.
+    Returns the new state and the id of the new spec (None: raised). *)
 Definition new_spec (st : state) (m p : N) (want : kind) (loads : kind -> bool) (sh : option N) (v : N)
-  : res (state * N) :=
-  let nx := st_next st in
-  (* get_or_create_io *)
-  let '(i, ios1, nx1) :=
-    match find_io m p (st_ios st) with
-    | Some i => (i, st_ios st, nx)
-    | None => let i := mkIO nx m p want [] in (i, st_ios st ++ [i], nx + 1)
-    end in
-  let s := mkSpec nx1 v sh in
-  if loads (io_kind i) && can_add_spec i s
-  then Ok (with_refs_tab_ios_next st (st_refs st) (st_tab st) (add_spec_at (io_id i) s ios1) (nx1 + 1), nx1)
-  else Err.
-(** on failure the code removes the (still empty) io it created: [cleanup_io] of [ios1] is the old
-    [ios] (lemma [new_spec_fail_clean] in Proofs.v states it on the literal two-phase form below) *)
-Definition new_spec_literal (st : state) (m p : N) (want : kind) (loads : kind -> bool) (sh : option N) (v : N)
   : state * option N :=
   let nx := st_next st in
-  let '(i, ios1, nx1) :=
-    match find_io m p (st_ios st) with
-    | Some i => (i, st_ios st, nx)
-    | None => let i := mkIO nx m p want [] in (i, st_ios st ++ [i], nx + 1)
+  let '(ioid, k, nx1) :=
+    match find_io m p (st_specs st) with
+    | Some c => (s_io c, s_kind c, nx)
+    | None => (nx, want, nx + 1)
     end in
-  let s := mkSpec nx1 v sh in
-  if loads (io_kind i) && can_add_spec i s
-  then (with_refs_tab_ios_next st (st_refs st) (st_tab st) (add_spec_at (io_id i) s ios1) (nx1 + 1), Some nx1)
-  else (with_refs_tab_ios_next st (st_refs st) (st_tab st) (cleanup_io (io_id i) ios1) (nx1 + 1), None).
+  let s := mkSpec nx1 ioid m p k sh v in
+  if loads k && can_add_spec s (st_specs st)
+  then (with_rtsn st (st_refs st) (st_tab st) (st_specs st ++ [s]) (nx1 + 1), Some nx1)
+  else (with_rtsn st (st_refs st) (st_tab st) (st_specs st) (nx1 + 1), None).
 
 (** * inheritance: ordered bases, C3 linearisation (SpaceGraph.get_mro) *)
 Definition bases_of (g : list (key * list N)) (m s : N) : list N :=
@@ -339,20 +303,20 @@ Fixpoint any_res {A} (f : A -> res bool) (l : list A) : res bool :=
 (** * ReferenceManager *)
 
 (** delete the spec of (m, v) when no reference to [v] is left in the table *)
-Definition gc (m v : N) (tb : list (key * list N)) (ios : list io) : list io :=
+Definition gc (m v : N) (tb : list (key * list N)) (sp : list spec) : list spec :=
   match tget (m, v) tb with
-  | Some _ => ios
-  | None => match get_spec m v ios with
-            | Some s => del_spec (s_id s) ios
-            | None => ios
+  | Some _ => sp
+  | None => match get_spec m v sp with
+            | Some s => del_spec (s_id s) sp
+            | None => sp
             end
   end.
 
 (** ReferenceManager.new_ref (after the name checks of the caller) *)
 Definition rm_new_ref (st : state) (o : owner) (n v : N) : state :=
   let nx := st_next st in
-  with_refs_tab_ios_next st (st_refs st ++ [mkRef nx o n v])
-                         (tab_add (fst o, v) nx (st_tab st)) (st_ios st) (nx + 1).
+  with_rtsn st (st_refs st ++ [mkRef nx o n v])
+                         (tab_add (fst o, v) nx (st_tab st)) (st_specs st) (nx + 1).
 
 (** ReferenceManager.change_ref; [prev] is the defined reference being replaced, or None when the
     visible reference is a derived one with value [pv] *)
@@ -362,13 +326,13 @@ Definition rm_change_ref (st : state) (o : owner) (n v : N) (prev : option ref) 
   let rs1 := match prev with Some r => drop_ref (r_id r) (st_refs st) | None => st_refs st end in
   let tb1 := match prev with Some r => tab_remove (m, pv) (r_id r) (st_tab st) | None => st_tab st end in
   let tb2 := tab_add (m, v) nx tb1 in
-  with_refs_tab_ios_next st (rs1 ++ [mkRef nx o n v]) tb2 (gc m pv tb2 (st_ios st)) (nx + 1).
+  with_rtsn st (rs1 ++ [mkRef nx o n v]) tb2 (gc m pv tb2 (st_specs st)) (nx + 1).
 
 (** ReferenceManager.del_ref of a defined reference *)
 Definition rm_del_ref (st : state) (r : ref) : state :=
   let m := fst (r_own r) in
   let tb := tab_remove (m, r_val r) (r_id r) (st_tab st) in
-  with_refs_tab_ios_next st (drop_ref (r_id r) (st_refs st)) tb (gc m (r_val r) tb (st_ios st)) (st_next st).
+  with_rtsn st (drop_ref (r_id r) (st_refs st)) tb (gc m (r_val r) tb (st_specs st)) (st_next st).
 
 Definition is_closed (st : state) (m : N) : bool := memN m (st_closed st).
 
@@ -429,17 +393,16 @@ Definition create (fuel : nat) (st : state) (o : owner) (n p : N) (want : kind) 
            (sh : option N) (v : N) : state * outcome :=
   let m := fst o in
   if is_closed st m then (st, RErr)
-  else if match tget (m, v) (st_tab st) with Some _ => true | None => false end
-          || match get_spec m v (st_ios st) with Some _ => true | None => false end
+  else if match get_spec m v (st_specs st) with Some _ => true | None => false end
        then (st, RErr)                       (* ideal: a value has at most one spec (finding dup) *)
   else
-  match new_spec_literal st m p want loads sh v with
+  match new_spec st m p want loads sh v with
   | (st1, None) => (st1, RErr)
   | (st1, Some sid) =>
       match set_attr fuel st1 o n v with
       | Ok st2 => (st2, ROk)
-      | Err => (with_ios st1 (del_spec sid (st_ios st1)), RErr)
-      | OutOfFuel => (with_ios st1 (del_spec sid (st_ios st1)), RFuel)
+      | Err => (with_specs st1 (del_spec sid (st_specs st1)), RErr)
+      | OutOfFuel => (with_specs st1 (del_spec sid (st_specs st1)), RFuel)
       end
   end.
 
@@ -451,15 +414,9 @@ Definition accepts (k : kind) (vk : vkind) : bool :=
   | _, _ => false
   end.
 
-Fixpoint set_spec_val (sid v : N) (ios : list io) : list io :=
-  match ios with
-  | [] => []
-  | i :: r => set_specs i (map (fun s => if N.eqb (s_id s) sid then mkSpec (s_id s) v (s_sheet s) else s)
-                               (io_specs i)) :: set_spec_val sid v r
-  end.
-
-Definition kind_of_spec (sid : N) (ios : list io) : option kind :=
-  match find (has_sid sid) ios with Some i => Some (io_kind i) | None => None end.
+Definition set_spec_val (sid v : N) (sp : list spec) : list spec :=
+  map (fun s => if N.eqb (s_id s) sid
+                then mkSpec (s_id s) (s_io s) (s_grp s) (s_path s) (s_kind s) (s_sheet s) v else s) sp.
 
 (** the [while refs: ref = refs.pop(); change_ref; newrefs.append] loop of update_value *)
 Fixpoint rebind (rids : list N) (v : N) (rs : list ref) (nx : N) : list ref * list N * N :=
@@ -482,28 +439,25 @@ Definition update (st : state) (m old new : N) (vk : vkind) : res state :=
       if negb (N.eqb old new) && match tget (m, new) (st_tab st) with Some _ => true | None => false end
       then Err                                                      (* ideal (finding update_bound) *)
       else
-      let ios_r :=
-        match get_spec m old (st_ios st) with
-        | None => Ok (st_ios st)
-        | Some s => match kind_of_spec (s_id s) (st_ios st) with
-                    | Some k => if accepts k vk then Ok (set_spec_val (s_id s) new (st_ios st)) else Err
-                    | None => Err
-                    end
+      let sp_r :=
+        match get_spec m old (st_specs st) with
+        | None => Ok (st_specs st)
+        | Some s => if accepts (s_kind s) vk then Ok (set_spec_val (s_id s) new (st_specs st)) else Err
         end in
-      bind ios_r (fun ios' =>
+      bind sp_r (fun sp' =>
       let '(rs', ids, nx') := rebind (rev l) new (st_refs st) (st_next st) in
-      Ok (with_refs_tab_ios_next st rs' (tset (m, new) ids (tdel (m, old) (st_tab st))) ios' nx'))
+      Ok (with_rtsn st rs' (tset (m, new) ids (tdel (m, old) (st_tab st))) sp' nx'))
   end.
 
 (** ReferenceManager.del_all_spec: the specs reachable through the table, deleted from the last *)
-Definition all_specs_of (m : N) (tb : list (key * list N)) (ios : list io) : list N :=
+Definition all_specs_of (m : N) (tb : list (key * list N)) (sp : list spec) : list N :=
   flat_map (fun e => if N.eqb (fst (fst e)) m
-                     then match get_spec m (snd (fst e)) ios with Some s => [s_id s] | None => [] end
+                     then match get_spec m (snd (fst e)) sp with Some s => [s_id s] | None => [] end
                      else []) tb.
 Definition close (st : state) (m : N) : res state :=
   if is_closed st m then Err
-  else let sids := all_specs_of m (st_tab st) (st_ios st) in
-       Ok (mkState (st_refs st) (st_tab st) (fold_left (fun ios sid => del_spec sid ios) (rev sids) (st_ios st))
+  else let sids := all_specs_of m (st_tab st) (st_specs st) in
+       Ok (mkState (st_refs st) (st_tab st) (fold_left (fun sp sid => del_spec sid sp) (rev sids) (st_specs st))
                    (st_spaces st) (st_bases st) (st_cells st) (m :: st_closed st) (st_next st)).
 
 (** del_attr *)
@@ -593,21 +547,40 @@ Definition step (fuel : nat) (st : state) (o : op) : state * outcome :=
 Definition run (fuel : nat) (ops : list op) : state :=
   fold_left (fun st o => fst (step fuel st o)) ops init.
 
+(** * vocabulary of the C18 statements *)
+Definition rmodel (r : ref) : N := fst (r_own r).
+
+(** some (defined) reference of model [m] is bound to value [v] *)
+Definition bound (st : state) (m v : N) : Prop :=
+  exists r, In r (st_refs st) /\ rmodel r = m /\ r_val r = v.
+
+(** the file location a spec claims: (model, path) and, in an excel file, the sheet *)
+Definition location (s : spec) : N * N * option N :=
+  (s_grp s, s_path s, match s_kind s with KExcel => s_sheet s | _ => None end).
+
+(** the creating operations: owner, name, value *)
+Definition creation (o : op) : option (owner * N * N) :=
+  match o with
+  | NewPandas ow n _ _ _ v _ => Some (ow, n, v)
+  | NewModule ow n _ v _ => Some (ow, n, v)
+  | _ => None
+  end.
+
+(** equal up to the counter of fresh object identities *)
+Definition same_but_next (a b : state) : Prop :=
+  st_refs a = st_refs b /\ st_tab a = st_tab b /\ st_specs a = st_specs b /\ st_spaces a = st_spaces b /\
+  st_bases a = st_bases b /\ st_cells a = st_cells b /\ st_closed a = st_closed b.
+
 (** * observables *)
 Definition spec_view := (N * N * kind * option N * N)%type.    (* model, path, kind, sheet, value *)
-Definition pairs (ios : list io) : list (io * spec) :=
-  flat_map (fun i => map (fun s => (i, s)) (io_specs i)) ios.
-Definition view (p : io * spec) : spec_view :=
-  (io_grp (fst p), io_path (fst p), io_kind (fst p), s_sheet (snd p), s_val (snd p)).
+Definition view (s : spec) : spec_view := (s_grp s, s_path s, s_kind s, s_sheet s, s_val s).
 (** what the IO manager holds *)
-Definition obs_specs (st : state) : list spec_view := map view (pairs (st_ios st)).
+Definition obs_specs (st : state) : list spec_view := map view (st_specs st).
 (** Model.iospecs = ReferenceManager.specs: through the table *)
-Definition find_pair (m v : N) (ios : list io) : option (io * spec) :=
-  find (fun p => N.eqb (io_grp (fst p)) m && N.eqb (s_val (snd p)) v) (pairs ios).
-Definition obs_api (st : state) : list spec_view :=
-  flat_map (fun e => if is_closed st (fst (fst e)) then []
-                     else match find_pair (fst (fst e)) (snd (fst e)) (st_ios st) with
-                          | Some p => [view p] | None => [] end) (st_tab st).
+Definition api_specs (st : state) : list spec :=
+  flat_map (fun e => match get_spec (fst (fst e)) (snd (fst e)) (st_specs st) with
+                     | Some s => [s] | None => [] end) (st_tab st).
+Definition obs_api (st : state) : list spec_view := map view (api_specs st).
 
 Definition ref_view := (N * option N * N * N * bool)%type.     (* model, space, name, value, derived *)
 
@@ -622,27 +595,23 @@ Fixpoint own_refs_along (st : state) (m s : N) (seen : list N) (l : list N) : li
 
 Definition obs_refs (fuel : nat) (st : state) : res (list ref_view) :=
   let glob := map (fun r => (fst (r_own r), None, r_name r, r_val r, false))
-                  (filter (fun r => is_nil (match snd (r_own r) with Some x => [x] | None => [] end)
-                                    && negb (is_closed st (fst (r_own r)))) (st_refs st)) in
+                  (filter (fun r => match snd (r_own r) with None => negb (is_closed st (fst (r_own r))) | Some _ => false end)
+                          (st_refs st)) in
   bind (map_res (fun k => if is_closed st (fst k) then Ok []
                           else bind (mro fuel (st_bases st) (fst k) (snd k))
                                     (fun l => Ok (own_refs_along st (fst k) (snd k) [] l)))
                 (st_spaces st)) (fun ls => Ok (glob ++ concat ls)).
 
 (** the modelled _check_sanity assertions:
-    IOManager: the shared io objects are pairwise distinct (len(ios) == len(set(id(v))));
-    BiDict: keys (group, path) are distinct and every io sits under its own path;
+    IOManager / BiDict: one shared io object per key (group, path) and one key per shared io object
+    (len(ios) == len(set(id(v))), io.path == key[1], spec.io is the io that holds it);
     ModelImpl: the value of every global reference is a key of _valid_to_refs;
-    ReferenceManager: every table entry resolves to references whose value is the key
-    ([assert r.interface is spec.value] for the spec found by that value). *)
-Fixpoint nodupN (l : list N) : bool :=
-  match l with [] => true | x :: t => negb (memN x t) && nodupN t end.
-Fixpoint nodupK (l : list key) : bool :=
-  match l with [] => true | x :: t => negb (existsb (key_eqb x) t) && nodupK t end.
-
+    ReferenceManager: every table entry resolves to live references whose value is the key (the code
+    asserts [r.interface is spec.value] for the spec found through that value; the model states the
+    stronger "the entry is keyed by the value of its references"). *)
 Definition check_sanity (st : state) : bool :=
-  nodupN (map io_id (st_ios st))
-  && nodupK (map (fun i => (io_grp i, io_path i)) (st_ios st))
+  forallb (fun s => forallb (fun s' => Bool.eqb (same_file (s_grp s) (s_path s) s') (N.eqb (s_io s) (s_io s')))
+                            (st_specs st)) (st_specs st)
   && forallb (fun r => match snd (r_own r) with
                        | None => match tget (fst (r_own r), r_val r) (st_tab st) with Some _ => true | None => false end
                        | Some _ => true
@@ -650,7 +619,7 @@ Definition check_sanity (st : state) : bool :=
   && forallb (fun e => forallb (fun rid => match ref_by_id rid (st_refs st) with
                                            | Some r => N.eqb (r_val r) (snd (fst e)) && N.eqb (fst (r_own r)) (fst (fst e))
                                            | None => false
-                                           end) (snd e)) (st_tab st).
+                                           end) (lookup (fst e) (st_tab st))) (st_tab st).
 
 (** * comparison with the implementation (used by the generated case files) *)
 Definition kind_eqb (a b : kind) : bool :=
